@@ -28,8 +28,12 @@ def gen_c06_dialog(rnd, sid):
         screens[1]["input_required"] = False; screens[1]["scripts"] = {"show": [{"acts": [["close_sig", 1]]}] * 3}
     hs = [dict(cls="U0", hid=0, data=None, scripts=[[[rnd.choice(["push_modal", "push_modal", "push"]), rnd.randrange(1, nscr), rnd.choice([None, 1])]] for _ in range(3)])]
     init = [["schedule", 0, rnd.choice([None, 2])]] + [["enq", "U0", rnd.choice([0, 0, 1]), None, sid.next()] for _ in range(rnd.randint(1, 2))]
+    deliver_at = sorted(rnd.sample(range(1, 30), rnd.choice([0, 0, 2, 5])))
+    if screens[1]["input_required"] is False and rnd.random() < 0.7:
+        # the user answers the waiting prompt while the handler is busy showing the notice (the line arrives in the notice's loop)
+        deliver_at = sorted(set(deliver_at + [rnd.randint(5, 8)]))
     return dict(op="machine", mode="dialog", width=80, screens=screens, handlers=hs, init=init, stdin=[rnd.choice(LINES) for _ in range(rnd.randint(2, 8))],
-                quit_cb=None, quit_screen=None, exc_handler=True, run_empty=False, deliver_at=sorted(rnd.sample(range(1, 30), rnd.choice([0, 0, 2, 5]))))
+                quit_cb=None, quit_screen=None, exc_handler=True, run_empty=False, deliver_at=deliver_at)
 
 
 def gen_c06_ready_handler(rnd, sid):
@@ -60,6 +64,13 @@ def generate(rnd, tier):
         for s_ in c["screens"]: s_["hidden"] = rnd.random() < 0.2          # hidden (password) prompts, also at the end of the input
         cases.append(c)
     cases += [gen_case(rnd, "app", sid) for _ in range(n // 3)] + [gen_c06_dialog(rnd, sid) for _ in range(n // 3)]
+    # the notice scenario on its own: a prompt is waiting, handlers show a modal notice (no input, closes itself) once or twice; the user types while a handler is busy
+    for _ in range(n // 5):
+        c = gen_c06_dialog(rnd, sid)
+        c["screens"][1]["input_required"] = False; c["screens"][1]["scripts"] = {"show": [{"acts": [["close_sig", 1]]}] * 4}
+        c["handlers"][0]["scripts"] = [[["push_modal", 1, rnd.choice([None, 1])]] for _ in range(3)]
+        c["deliver_at"] = sorted(set(rnd.sample(range(5, 12), rnd.randint(1, 3)) + rnd.sample(range(12, 40), rnd.randint(0, 3))))
+        cases.append(c)
     return [with_cc(c) for c in cases]
 
 
